@@ -170,6 +170,33 @@ theorem garbage_scan_complete (term inp : List UInt8) (g : Nat) (hg : g ≤ MAX_
   Lemmas.scanGarbage_finds term inp g hat hno hlen scanIterations 0 (Nat.zero_le _)
     (by simp only [scanIterations, MAX_GARBAGE_LEN] at *; omega)
 
+/-- Either role completes the handshake against the other role derived from the same keys, for
+EVERY garbage length 0 … 4095 on the peer's side and every number/size of decoys on both sides:
+after key agreement, CompleteHandshake (terminator, decoys, version packet out; garbage scan,
+first packet with the garbage as AAD, decoys skipped in) returns ok, consumes exactly the peer's
+handshake bytes, and leaves the receive ciphers in the peer's send state (so `stream_sync` applies
+to everything that follows). Hypothesis `hno`: the 16-byte terminator does not occur in the
+peer's garbage at an earlier offset (probability ≤ 4095·2⁻¹²⁸). -/
+theorem handshake_completes (P : Prims) (hmac : ∀ k m, (P.mac k m).length = 16) (k : Keys) (ini : Bool)
+    (myGarbage : List UInt8) (myDecoys : List Nat) (written mb : List UInt8) (send' : Dir)
+    (hmine : sendDecoys P (mkSession k ini).send myGarbage myDecoys [] = .ok (mb, send'))
+    (G : List UInt8) (hG : G.length ≤ MAX_GARBAGE_LEN)
+    (hT : (mkSession k (!ini)).sendTerm.length = 16)
+    (peerDecoys : List Nat) (pb : List UInt8) (d' : Dir)
+    (hpeer : sendDecoys P (mkSession k (!ini)).send G peerDecoys [] = .ok (pb, d')) (rest : List UInt8)
+    (hno : ∀ i, i < G.length →
+      ((G ++ ((mkSession k (!ini)).sendTerm ++ (pb ++ rest))).drop i).take 16 ≠ (mkSession k (!ini)).sendTerm) :
+    let out := completeAfterKeys P (mkSession k ini) myGarbage myDecoys written
+      (G ++ ((mkSession k (!ini)).sendTerm ++ (pb ++ rest)))
+    out.status = .ok ∧ out.sess = some { mkSession k ini with send := send', recv := d' } ∧
+      out.rest = rest ∧ out.written = written ++ (mkSession k ini).sendTerm ++ mb := by
+  have e1 : (mkSession k (!ini)).send = (mkSession k ini).recv := by cases ini <;> rfl
+  have e2 : (mkSession k (!ini)).sendTerm = (mkSession k ini).recvTerm := by cases ini <;> rfl
+  rw [e1] at hpeer
+  rw [e2] at hT hno ⊢
+  exact Lemmas.complete_ok P hmac (mkSession k ini) myGarbage myDecoys written mb send' hmine G
+    (by simpa [MAX_GARBAGE_LEN] using hG) hT peerDecoys pb d' hpeer rest hno
+
 /-! ### ElligatorSwift: decode ∘ encode = id -/
 
 /-- An ElligatorSwift encoding always decodes to the encoded x-coordinate: whenever
